@@ -87,5 +87,6 @@ ApplyPrec(raw) ==
       G |-> [ts |-> raw.G.ts, nts |-> raw.G.nts \o tiers, prods |-> prods1 \o pass],
       sp |-> raw.sp, n |-> raw.n, inject |-> raw.inject,
       P |-> raw.P \o [i \in 1..(n - 1) |-> PassThroughP],
-      inl |-> raw.inl]
+      inl |-> raw.inl,
+      kinds |-> raw.kinds \o [i \in 1..(n - 1) |-> "V"]]     \* (annotated operator nonterminals are declared)
 =============================================================================
